@@ -162,6 +162,16 @@ static std::string c12_scenario(int sc, coop::Sched& s, uint64_t seed, std::stri
         run_bodies(s, {[&] { d.reject(TestExc(11)); }, [&] { q.then(okCb, rejCb); }}, seed);
         return c12_judge(o, 0, 1, 0, 11);
     }
+    case 13: {  // S14 several continuations attached beforehand (a full list: 2 or 4), resolve || then(one more): the list grows while it is being walked
+        static int flip = 0; int pre = (flip++ % 2) ? 4 : 2;
+        name = "S14-resolve-with-" + std::to_string(pre) + "-attached|then";
+        Async::Deferred<int> d; Async::Promise<int> p([&](Async::Deferred<int> dd) { d = std::move(dd); });
+        std::atomic<int> preOk{0}, preBad{0};
+        for (int k = 0; k < pre; k++) p.then([&](int v) { if (v == 6) preOk++; else preBad++; }, [&](std::exception_ptr) { preBad++; });
+        run_bodies(s, {[&] { d.resolve(6); }, [&] { p.then(okCb, rejCb); }}, seed);
+        if (preBad || preOk != pre) return preOk > pre ? "fulfil-continuation-ran-twice" : "fulfil-continuation-lost";
+        return c12_judge(o, 1, 0, 6, -1);
+    }
     default: {  // S13 inner promise REJECTED by a third thread while another thread attaches to the derived promise
         name = "S13-inner-promise-rejected-by-third-thread";
         Async::Deferred<int> d; Async::Promise<int> p([&](Async::Deferred<int> dd) { d = std::move(dd); });
@@ -181,10 +191,10 @@ static void run_c12(long cases) {
     for (long i = g_opts.shard; i < cases * g_opts.nshards; i += g_opts.nshards) {
         if (i <= g_skip) continue;
         if (!g_coop && ((i / g_opts.nshards) % 64) == 0) emit(Json().str("t", "progress").num("i", i).num("stride", 64L * g_opts.nshards).done());
-        int sc = (int)(i % 13);
+        int sc = (int)(i % 14);
         uint64_t seed = g_opts.seed * 1000003ull + (uint64_t)i;
-        int strat = (i / 13) % 3 == 0 ? 1 : 0;
-        s.reset(sc == 4 || sc == 6 || sc == 9 || sc == 12 ? 3 : 2, seed, strat, 1 + (int)((i / 39) % 3), 40);
+        int strat = (i / 14) % 3 == 0 ? 1 : 0;
+        s.reset(sc == 4 || sc == 6 || sc == 9 || sc == 12 ? 3 : 2, seed, strat, 1 + (int)((i / 42) % 3), 40);
         std::string name;
         set_case(i, Json().num("i", i).str("phase", "c12").num("scenario", sc).num("seed", (long long)g_opts.seed).done());
         std::string sym = c12_scenario(sc, s, seed, name);
